@@ -86,7 +86,7 @@ type VarDecl struct {
 type Program struct {
 	Vars  []VarDecl `json:"vars,omitempty"`
 	Stmts []Stmt    `json:"stmts,omitempty"`
-	Style int       `json:"style,omitempty"` // 0: multi-line, 1: compact, 2: tight (no optional white space in source lists and argument lists)
+	Style int       `json:"style,omitempty"` // 0: multi-line, 1: compact, 2: tight (no optional white space in source lists and argument lists), 3: the whole script on one line
 	// Trailer is a comment printed after the last statement (a script may end in a `//` line
 	// comment, whose terminating newline is then the last byte of the text)
 	Trailer string `json:"trailer,omitempty"`
@@ -160,6 +160,16 @@ func (p *printer) w(s string) {
 			p.col++
 		}
 	}
+}
+
+// eol ends a declaration or a statement: a line break, or in style 3 ("one line": the whole
+// script on a single line, the vars block included) a blank.
+func (p *printer) eol() {
+	if p.style == 3 {
+		p.w(" ")
+		return
+	}
+	p.w("\n")
 }
 
 func (p *printer) nl() {
@@ -365,7 +375,7 @@ func (p *printer) stmt(s *Stmt) {
 	case "call":
 		p.call(s.Fn, s.Args, "statement")
 	}
-	p.w("\n")
+	p.eol()
 }
 
 func (p *printer) sent(s *Stmt) {
@@ -387,7 +397,8 @@ func (prog Program) Print() Printed {
 		}
 	}
 	if len(prog.Vars) > 0 {
-		p.w("vars {\n")
+		p.w("vars {")
+		p.eol()
 		for i := range prog.Vars {
 			v := &prog.Vars[i]
 			p.w("  ")
@@ -398,9 +409,10 @@ func (prog Program) Print() Printed {
 				p.w(" = ")
 				p.call(v.Fn, v.Args, "origin")
 			}
-			p.w("\n")
+			p.eol()
 		}
-		p.w("}\n")
+		p.w("}")
+		p.eol()
 	}
 	for i := range prog.Stmts {
 		p.stmt(&prog.Stmts[i])
